@@ -352,7 +352,7 @@ def dictionary_mc(quick):
 
 # ------------------------------------------------------------------ Stream.tla: the payload-level producer/consumer protocol
 
-STREAM_MUTANTS = ["MutRetireBySignal", "MutNoRetire", "MutNilRelease", "MutLenientCount", "MutSkipUnknown"]
+STREAM_MUTANTS = ["MutRetireBySignal", "MutNoRetire", "MutNilRelease", "MutLenientCount", "MutSkipUnknown", "MutOpenOnCreate"]
 
 def _stream_cfg(related, batches, faults, levels=(1, 2), mutant=None):
     lines = ["SPECIFICATION MCSpec", "CONSTANTS", '  Signals = {"t", "l"}', "  Related = {%s}" % ", ".join('"%s"' % r for r in related),
@@ -413,6 +413,7 @@ CONSTANTS
   MutNilRelease = FALSE
   MutLenientCount = FALSE
   MutSkipUnknown = FALSE
+  MutOpenOnCreate = FALSE
 CONSTRAINT HW
 INVARIANT TraceInv
 POSTCONDITION Report
